@@ -62,13 +62,25 @@ def tagOf (id : String) : String := String.ofList (id.toList.takeWhile Char.isAl
     * `scoping_use_copies_per_call` — every call of a `use()` closure starts from the values captured at definition and
       from fresh locals (vmops.hpp:104-110): programs of the `scope` family must give exactly the reference's result.
     * `operator_typing_array_minus_total` — `array - array` is defined for all element types (elements are compared with
-      `==`): programs of the `arrsub` family for which the reference answers a value never raise. -/
+      `==`): programs of the `arrsub` family for which the reference answers a value never raise.
+    * `conditional_branches_in_source_order` — in `if … else if … else` the first true condition in source order decides
+      (family `elif`: chains with overlapping conditions).
+    * `scoping_this_restored_after_error` — an error raised inside a `{ … }` literal and caught in the same frame leaves
+      `this` as it was (expression.cpp:528-532; family `selfkeep`).
+    * `prototype_method_on_empty_string` — String methods on the empty string see it as `this` (vmops.hpp:86; family
+      `emptystr`: `"".len() == 0`, `"".upper() == ""` …).
+    * `array_join_total_on_scalars` — doc/18 "Array#join: joins all elements of the array": joining scalars never raises
+      (family `joinscalar`; violated by the unchanged tree for Boolean elements, finding F-C15e). -/
 def checkAgainstReference (id impl : String) (ref : Option String) (refDepth : Nat) : Option String :=
   if pre "syntax" impl then none                        -- reported by `generated_program_parses`
   else if impl == "e:stack" && ref.isSome && refDepth < 300 then some "depth_error_only_beyond_limit"
   else if tagOf id == "arrsub" && (match ref with | some r => pre "v:" r | none => false) && !pre "v:" impl then
     some "operator_typing_array_minus_total"
   else if tagOf id == "scope" && ref.isSome && ref != some impl then some "scoping_use_copies_per_call"
+  else if tagOf id == "elif" && ref.isSome && ref != some impl then some "conditional_branches_in_source_order"
+  else if tagOf id == "selfkeep" && ref.isSome && ref != some impl then some "scoping_this_restored_after_error"
+  else if tagOf id == "emptystr" && ref.isSome && ref != some impl then some "prototype_method_on_empty_string"
+  else if tagOf id == "joinscalar" && !pre "v:" impl then some "array_join_total_on_scalars"
   else none
 
 end Icinga.C15.Spec
